@@ -21,7 +21,9 @@ EXPLANATION = (
     "pass through the partition builders unmodified, relative coordinates "
     "only subtract the partition start, _splitFiber hands coords / payloads "
     "/ active range from the splitter to the Fiber constructor unchanged "
-    "with the split fiber's default and shape.  Partition boundaries, "
+    "with the split fiber's default and shape; (R5) splitEqual / splitUnEqual "
+    "count their boundaries over the same stream kind the shared partitioner "
+    "distributes.  Partition boundaries, "
     "halos and clipped active ranges are not decided.")
 RULE = "one obligation per split entry point and per plumbing clause"
 
